@@ -17,9 +17,12 @@ package main
 import (
 	"bytes"
 	"encoding/hex"
+	"flag"
 	"fmt"
 	"strconv"
 	"strings"
+	"sync"
+	"time"
 
 	"github.com/Shopify/sarama"
 	"verif/harness/hlib"
@@ -1010,6 +1013,76 @@ func histCase(seed uint64, steps int) {
 // bodies whose own encoding is known not to decode (known findings of the body stream) are not this family's topic
 func knownDecodeGap(name string, ver int16, v interface{}) bool { return false }
 
+// concurrent decoders: `workers` goroutines decode (and re-encode) a fixed corpus of valid encodings for `ms`
+// milliseconds; every result must be the single-threaded reference.  The model's `dec` is a pure function of the
+// bytes, so what this family ties is that the real decoder shares no mutable state between calls.
+func concFamily(seed uint64, ms int, workers int) {
+	line := fmt.Sprintf("concrun %d %d %d", seed, ms, workers)
+	corpus := sarama.VerifConcCorpus(hlib.NewRand(seed))
+	ref := make([]string, len(corpus))
+	for i, it := range corpus {
+		it := it
+		i := i
+		run.Safe(line, func() string {
+			c, err := sarama.VerifConcDecode(it.Kind, it.Bytes)
+			if err != nil {
+				c = "ERR " + err.Error()
+				run.Count("conc:reference-error:" + it.Kind) // (reported by the sequential streams)
+			}
+			ref[i] = c
+			return ""
+		})
+	}
+	var mu sync.Mutex
+	reported := map[string]bool{}
+	var total int64
+	deadline := time.Now().Add(time.Duration(ms) * time.Millisecond)
+	var wg sync.WaitGroup
+	for w := 0; w < workers; w++ {
+		wg.Add(1)
+		go func(w int) {
+			defer wg.Done()
+			r := hlib.NewRand(seed + uint64(w)*7919 + 1)
+			n := int64(0)
+			for time.Now().Before(deadline) {
+				for k := 0; k < 64; k++ {
+					i := r.Intn(len(corpus))
+					it := corpus[i]
+					got := func() (res string) {
+						defer func() {
+							if p := recover(); p != nil {
+								res = fmt.Sprint("PANIC ", p)
+							}
+						}()
+						c, err := sarama.VerifConcDecode(it.Kind, it.Bytes)
+						if err != nil {
+							return "ERR " + err.Error()
+						}
+						return c
+					}()
+					n++
+					if got != ref[i] {
+						mu.Lock()
+						if !reported[it.Kind] && len(reported) < 4 {
+							reported[it.Kind] = true
+							ioFail("concurrent-decode-differs:"+it.Kind, line,
+								fmt.Sprintf("worker %d, input %s (%s): got %s, single-threaded reference %s", w, it.Kind, hx(it.Bytes), clip(got), clip(ref[i])))
+						}
+						mu.Unlock()
+					}
+				}
+			}
+			mu.Lock()
+			total += n
+			mu.Unlock()
+		}(w)
+	}
+	wg.Wait()
+	run.Case(fmt.Sprintf("%s: %d corpus entries, %d concurrent decodes", line, len(corpus), total))
+	run.Set("concurrent_decodes", total)
+	run.Count("conc:runs")
+}
+
 // prefixes of valid encodings: partial trailing blocks / batches, short records (correspondence only)
 func truncations(r *hlib.Rand) {
 	for i := 0; i < 40; i++ {
@@ -1131,6 +1204,11 @@ func replayLine(l string) {
 			seed, _ := strconv.ParseUint(f[1], 10, 64)
 			histCase(seed, atoi(f[2]))
 		}
+	case "concrun":
+		if len(f) == 4 {
+			seed, _ := strconv.ParseUint(f[1], 10, 64)
+			concFamily(seed, atoi(f[2]), atoi(f[3]))
+		}
 	case "xcase":
 		if len(f) == 9 {
 			seed, _ := strconv.ParseUint(f[8], 10, 64)
@@ -1168,6 +1246,7 @@ func mixSeed(s uint64) uint64 {
 }
 
 func main() {
+	concOnly := flag.Int("conconly", 0, "run only the concurrent-decoders family for this many milliseconds")
 	run = hlib.Start("C09")
 	for _, b := range sarama.VerifBodies() {
 		bodies[b.Name] = b
@@ -1184,6 +1263,11 @@ func main() {
 	// hlib's generator is a splitmix whose state advances by a constant: consecutive seeds would give shifted
 	// copies of one stream, so the seed is hashed first
 	r := hlib.NewRand(mixSeed(run.Seed))
+	if *concOnly > 0 {
+		concFamily(r.U64(), *concOnly, 8)
+		run.Finish(rule)
+		return
+	}
 	perVersion := 14
 	nScripts := 1500
 	nRecs := 300
@@ -1251,6 +1335,11 @@ func main() {
 	for i := 0; i < nHist; i++ {
 		histCase(r.U64(), 6+r.Intn(10))
 	}
+	concMs := 1000
+	if run.Tier == "thorough" {
+		concMs = 6000
+	}
+	concFamily(r.U64(), concMs, 8)
 	run.Safe("truncation stream", func() string { truncations(r); return "" })
 	constLines()
 	// every codec × level grid on one batch shape
